@@ -349,8 +349,13 @@ def check_registries(rep: Report, ctx: Any, rid: str) -> None:
         b = c.methods.get("build")
         rep.require(b, f"{cname}.build")
         found = False
-        for g in region(ix, b):
-            for verdict, at, shown in _existing_compatible(g, cname):
+        reg_b = region(ix, b)
+        # a helper that only answers the question for its caller is judged where the answer is used
+        answering = {n for g in reg_b for n in _Compat(ix, g, cname).consumed()}
+        for g in reg_b:
+            if g.name in answering:
+                continue
+            for verdict, at, shown in _existing_compatible(g, cname, ix):
                 found = True
                 rep.check(verdict, rid, f"{short(g)}::existing-compatible",
                           "an existing class of another kind or with other values under the same name must be diagnosed",
@@ -436,7 +441,7 @@ def _judge(ix: Any, h: FuncInfo, at: ast.stmt, reg: str, key: ast.expr, kind: st
     t0 = next(t for t in same if cfg.is_dominated_by(at, lambda n, t=t: n is t))
     reach = cfg.reachable_from(t0, avoid=lambda n: n is at)
     raised, maybe_errors = _asked_in_helper(ix, h, t0, reg, cfgs)
-    leads = raised or any(isinstance(n, ast.stmt) and (returns_error(n, errs | maybe_errors) or isinstance(n, ast.Raise)) for n in reach)
+    leads = raised or any(isinstance(n, ast.stmt) and diagnoses(n, errs | maybe_errors) for n in reach)
     if not leads:
         return [_Outcome(False, ckey, "the membership test never leads to an error return or raise: a duplicate is not diagnosed",
                          at=where(h, at), lhs="test " + norm(t0)[:80], rhs="reaches `return <error>` avoiding the store")]
@@ -470,8 +475,8 @@ def _asked_in_helper(ix: Any, h: FuncInfo, t0: ast.stmt, reg: str, cfgs: dict[st
         gcfg = cfg_of(g, cfgs)
         for t, _ in membership_tests(g, reg):
             after = [n for n in gcfg.reachable_from(t) if isinstance(n, ast.stmt)]
-            raised = raised or any(isinstance(n, ast.Raise) for n in after)
-            if any(returns_error(n, gerrs) for n in after) and isinstance(t0, (ast.Assign, ast.AnnAssign)):
+            raised = raised or any(isinstance(n, ast.Raise) or _records_error(n, gerrs) for n in after)
+            if any(returns_error(n, gerrs) or _yields_error(n, gerrs) for n in after) and isinstance(t0, (ast.Assign, ast.AnnAssign)):
                 for tg in (t0.targets if isinstance(t0, ast.Assign) else [t0.target]):
                     names |= {x.id for x in ast.walk(tg) if isinstance(x, ast.Name)}
     return raised, names
@@ -805,77 +810,179 @@ def _lookup(e: ast.AST, aliases: dict[str, str]) -> bool:
     return False
 
 
-def _existing_compatible(g: FuncInfo, cname: str) -> list[tuple[bool, ast.AST, str]]:
-    """The decision "may the class already registered under this name be reused" in g, if g takes it: (verdict, where, test shown).
+class _Compat:
+    """The decision "may the class already registered under this name be reused", as function g takes part in it.
 
     The registered entry is found by role - an expression that reads one entry of a registry, or a local bound to one - and the
-    decision is every `if` that asks for its type (isinstance).  It is evaluated over the paths, not over its text: with the entry
+    decision is every test that asks for its type (isinstance).  It is evaluated over the paths, not over its text: with the entry
     present, whenever it is not of this enum kind or its values differ, only error returns / raises may be reachable from the lookup
-    onwards (early return or nested if, either branch order, one combined test or several)."""
-    fn = g.node
-    aliases = _aliases(fn)
-    lc = _locals(fn)
-    existing = {name for name, ds in lc.defs.items() if any(k == "assign" and v is not None and _lookup(v, aliases) for k, _, v in ds)}
+    onwards (early return or nested if, either branch order, one combined test or several).  A private helper that answers the
+    question for its caller (returns a truth value, or an error / None) is evaluated the same way and the call stands for what it
+    returns: where the question is asked does not matter, only what follows from the answer."""
 
-    def is_existing(e: ast.AST) -> bool:
-        return (isinstance(e, ast.Name) and e.id in existing) or _lookup(e, aliases)
+    def __init__(self, ix: Any, g: FuncInfo, cname: str, depth: int = 2) -> None:
+        self.ix, self.g, self.cname, self.depth = ix, g, cname, depth
+        self.fn = g.node
+        self.aliases = _aliases(self.fn)
+        self.lc = _locals(self.fn)
+        self.existing = {name for name, ds in self.lc.defs.items()
+                         if any(k == "assign" and v is not None and _lookup(v, self.aliases) for k, _, v in ds)}
+        self.once = _single_assignments(self.fn)
+        self.helpers = {h.name: h for h in region(ix, g, depth=1) if h is not g} if (ix is not None and depth > 0) else {}
+        self._sub: dict[str, "_Compat"] = {}
 
-    def kind_atom(e: ast.AST) -> "bool | None":
+    def is_existing(self, e: ast.AST) -> bool:
+        return (isinstance(e, ast.Name) and e.id in self.existing) or _lookup(e, self.aliases)
+
+    def kind_atom(self, e: ast.AST) -> "bool | None":
         """isinstance(<existing>, C): True when C is this enum class (or cls), False for another class, None when e is something else"""
-        if isinstance(e, ast.Call) and call_name(e) == "isinstance" and len(e.args) == 2 and is_existing(e.args[0]):
+        if isinstance(e, ast.Call) and call_name(e) == "isinstance" and len(e.args) == 2 and self.is_existing(e.args[0]):
             classes = {(dotted(x) or "").rsplit(".", 1)[-1] for x in (e.args[1].elts if isinstance(e.args[1], ast.Tuple) else [e.args[1]])}
-            return classes <= {cname, "cls"}
+            return classes <= {self.cname, "cls"}
         return None
 
-    once = _single_assignments(fn)
-    deciding = [n for n in ast.walk(fn) if isinstance(n, ast.If) and any(kind_atom(x) is not None for x in ast.walk(_inline_locals(n.test, fn)))]
-    if not deciding:
-        return []
-    first = min(deciding, key=lambda n: n.lineno)
-    # where the entry is looked up: the binding of the local, or the deciding statement itself when the lookup is written inline
-    lookups = [st for name in existing for k, st, v in lc.defs[name] if isinstance(st, ast.stmt)] or [first]
-    cfg = CFG(fn)
-    after: set[object] = set()
-    for st in lookups:
-        after |= cfg.reachable_from(st)
-    errs = error_names(fn)
-    ok = True
-    for own, differ in ((False, False), (False, True), (True, True)):
-        def ev(t: ast.expr, own: bool = own, differ: bool = differ, depth: int = 3) -> "bool | None":
-            if isinstance(t, ast.UnaryOp) and isinstance(t.op, ast.Not):
-                x = ev(t.operand, own, differ, depth)
-                return None if x is None else not x
-            if isinstance(t, ast.BoolOp):
-                xs = [ev(x, own, differ, depth) for x in t.values]
-                if isinstance(t.op, ast.And):
-                    return False if any(x is False for x in xs) else (True if all(x is True for x in xs) else None)
-                return True if any(x is True for x in xs) else (False if all(x is False for x in xs) else None)
-            k = kind_atom(t)
-            if k is not None:
-                return own if k else (None if not own else False)
-            if isinstance(t, ast.Compare) and len(t.ops) == 1:
-                op, l, r = t.ops[0], t.left, t.comparators[0]
-                if isinstance(op, (ast.Eq, ast.NotEq)) and any(isinstance(x, ast.Attribute) and x.attr == "values" and is_existing(x.value) for x in (l, r)):
-                    return differ == isinstance(op, ast.NotEq)
-                # the entry is present: `existing is (not) None`, `K (not) in <registry>`
-                if isinstance(op, (ast.Is, ast.IsNot)) and isinstance(r, ast.Constant) and r.value is None and is_existing(l):
-                    return isinstance(op, ast.IsNot)
-                if isinstance(op, (ast.In, ast.NotIn)) and _reg_of(r, ATTR_REGISTRIES, aliases):
-                    return isinstance(op, ast.In)
-            if is_existing(t):
-                return True
-            if isinstance(t, ast.Name) and t.id in once and depth > 0:
-                # the decision (or a part of it) kept in a local first
-                return ev(once[t.id], own, differ, depth - 1)
-            return None
+    def about_entry(self, e: ast.AST) -> bool:
+        """e asks something about the registered entry: its kind, or whether its values are the ones at hand"""
+        if self.kind_atom(e) is not None:
+            return True
+        return isinstance(e, ast.Compare) and len(e.ops) == 1 and isinstance(e.ops[0], (ast.Eq, ast.NotEq)) and any(
+            isinstance(x, ast.Attribute) and x.attr == "values" and self.is_existing(x.value) for x in (e.left, e.comparators[0]))
 
-        terms, falls = terminals(fn.body, ev)
+    def helper(self, e: ast.AST) -> "_Compat | None":
+        """the private helper whose answer e is (a call, or a once-bound local holding the result of one), if it takes part in the decision"""
+        hops = 0
+        while isinstance(e, ast.Name) and e.id in self.once and hops < 3:
+            e, hops = self.once[e.id], hops + 1
+        h = self.helpers.get(call_name(e).rsplit(".", 1)[-1]) if isinstance(e, ast.Call) else None
+        if h is None:
+            return None
+        if h.name not in self._sub:
+            self._sub[h.name] = _Compat(self.ix, h, self.cname, self.depth - 1)
+        sub = self._sub[h.name]
+        return sub if sub.asks() else None
+
+    def asks(self) -> bool:
+        """g itself asks for the kind of the registered entry somewhere (in a test or in what it returns), or a helper of it does"""
+        for n in _own_nodes(self.fn):
+            if self.about_entry(n):
+                return True
+            if isinstance(n, ast.Call) and self.helper(n) is not None:
+                return True
+        return False
+
+    def deciding(self) -> list[ast.If]:
+        out = []
+        for n in _own_nodes(self.fn):
+            if isinstance(n, ast.If):
+                t = _inline_locals(n.test, self.fn)
+                if any(self.about_entry(x) or (isinstance(x, ast.Call) and self.helper(x) is not None) for x in ast.walk(t)):
+                    out.append(n)
+        return sorted(out, key=lambda n: n.lineno)
+
+    def consumed(self) -> set[str]:
+        """helpers whose answer feeds a decision of g"""
+        return {call_name(x).rsplit(".", 1)[-1] for n in self.deciding() for x in ast.walk(_inline_locals(n.test, self.fn))
+                if isinstance(x, ast.Call) and self.helper(x) is not None}
+
+    # -- evaluation under one assumption: the entry is present, `own` = it is of this enum kind, `differ` = its values differ
+    def results(self, own: bool, differ: bool) -> set[str]:
+        """what g can return under the assumption: T / F (truth values), N (None), E (an error), ? (anything else)"""
+        errs = error_names(self.fn)
+        terms, falls = terminals(self.fn.body, lambda t: self.ev(t, own, differ))
+        out = {"N"} if falls else set()
         for t in terms:
-            if t in after and not (isinstance(t, ast.Raise) or returns_error(t, errs)):
+            if isinstance(t, ast.Raise):
+                continue  # loud
+            v = t.value
+            if v is None or (isinstance(v, ast.Constant) and v.value is None):
+                out.add("N")
+            elif isinstance(v, ast.Constant) and isinstance(v.value, bool):
+                out.add("T" if v.value else "F")
+            elif returns_error(t, errs):
+                out.add("E")
+            else:
+                b = self.ev(v, own, differ)
+                out.add("?" if b is None else ("T" if b else "F"))
+        return out
+
+    def ev(self, t: ast.expr, own: bool, differ: bool, depth: int = 3) -> "bool | None":
+        if isinstance(t, ast.UnaryOp) and isinstance(t.op, ast.Not):
+            x = self.ev(t.operand, own, differ, depth)
+            return None if x is None else not x
+        if isinstance(t, ast.BoolOp):
+            xs = [self.ev(x, own, differ, depth) for x in t.values]
+            if isinstance(t.op, ast.And):
+                return False if any(x is False for x in xs) else (True if all(x is True for x in xs) else None)
+            return True if any(x is True for x in xs) else (False if all(x is False for x in xs) else None)
+        k = self.kind_atom(t)
+        if k is not None:
+            return own if k else (None if not own else False)
+        if isinstance(t, ast.Call) and call_name(t) == "isinstance" and len(t.args) == 2:
+            sub = self.helper(t.args[0])
+            classes = {(dotted(x) or "").rsplit(".", 1)[-1] for x in (t.args[1].elts if isinstance(t.args[1], ast.Tuple) else [t.args[1]])}
+            if sub is not None and classes and classes <= ERROR_CLASS_NAMES:
+                vals = sub.results(own, differ)
+                return True if vals and vals <= {"E"} else (False if not (vals & {"E", "?"}) else None)
+        if isinstance(t, ast.Compare) and len(t.ops) == 1:
+            op, l, r = t.ops[0], t.left, t.comparators[0]
+            if isinstance(op, (ast.Eq, ast.NotEq)) and any(isinstance(x, ast.Attribute) and x.attr == "values" and self.is_existing(x.value) for x in (l, r)):
+                return differ == isinstance(op, ast.NotEq)
+            # the entry is present: `existing is (not) None`, `K (not) in <registry>`
+            if isinstance(op, (ast.Is, ast.IsNot)) and isinstance(r, ast.Constant) and r.value is None and self.is_existing(l):
+                return isinstance(op, ast.IsNot)
+            if isinstance(op, (ast.In, ast.NotIn)) and _reg_of(r, ATTR_REGISTRIES, self.aliases):
+                return isinstance(op, ast.In)
+            if isinstance(op, (ast.Is, ast.IsNot)) and isinstance(r, ast.Constant) and r.value is None:
+                sub = self.helper(l)
+                if sub is not None:
+                    vals = sub.results(own, differ)
+                    is_none = True if vals and vals <= {"N"} else (False if not (vals & {"N", "?"}) else None)
+                    return None if is_none is None else (is_none == isinstance(op, ast.Is))
+        if self.is_existing(t):
+            return True
+        sub = self.helper(t) if isinstance(t, (ast.Call, ast.Name)) else None
+        if sub is not None:
+            vals = sub.results(own, differ)
+            return True if vals and vals <= {"T", "E"} else (False if vals and vals <= {"F", "N"} else None)
+        if isinstance(t, ast.Name) and t.id in self.once and depth > 0:
+            # the decision (or a part of it) kept in a local first
+            return self.ev(self.once[t.id], own, differ, depth - 1)
+        return None
+
+    def verdict(self) -> list[tuple[bool, ast.AST, str]]:
+        deciding = self.deciding()
+        if not deciding:
+            return []
+        first = deciding[0]
+        fn = self.fn
+        # where the entry is looked up: the binding of the local, or the deciding statement itself when the lookup is written inline
+        # or made by the helper that is asked
+        lookups = [st for name in self.existing for k, st, v in self.lc.defs[name] if isinstance(st, ast.stmt)] or [first]
+        cfg = CFG(fn)
+        after: set[object] = set()
+        for st in lookups:
+            after |= cfg.reachable_from(st)
+        ok = True
+        for own, differ in ((False, False), (False, True), (True, True)):
+            # locals that hold what a helper answered, when under this assumption the answer is an error
+            errs = error_names(fn) | {name for name, v in self.once.items() if isinstance(v, ast.Call) and self.helper(v) is not None
+                                      and self.helper(v).results(own, differ) <= {"E"}}
+            terms, falls = terminals(fn.body, lambda t, own=own, differ=differ: self.ev(t, own, differ))
+            for t in terms:
+                if t in after and not (isinstance(t, ast.Raise) or returns_error(t, errs)):
+                    ok = False
+            if falls:
                 ok = False
-        if falls:
-            ok = False
-    return [(ok, first, "; ".join(norm(n.test) for n in sorted(deciding, key=lambda n: n.lineno))[:200])]
+        return [(ok, first, "; ".join(norm(n.test) for n in deciding)[:200])]
+
+
+ERROR_CLASS_NAMES = {"ParseError", "PropertyError", "ParameterError", "GeneratorError"}
+
+
+def _existing_compatible(g: FuncInfo, cname: str, ix: Any = None) -> list[tuple[bool, ast.AST, str]]:
+    """The decision "may the class already registered under this name be reused" in g, if g takes it: (verdict, where, test shown);
+    see _Compat"""
+    return _Compat(ix, g, cname).verdict()
 
 
 # ---- conflict resolution of operation parameters ---------------------------------------------------------------------------------
@@ -1007,12 +1114,44 @@ def _reserved_tests(g: FuncInfo, node: ast.AST) -> list[tuple[ast.Compare, list[
     return out
 
 
+def _derived_from(loop: ast.For) -> set[str]:
+    """the loop variable(s) and every name bound, inside the body, from something that reads one of them"""
+    dep = {n.id for n in ast.walk(loop.target) if isinstance(n, ast.Name)}
+    changed = True
+    while changed:
+        changed = False
+        for b in loop.body:
+            for n in ast.walk(b):
+                tgts: list[ast.AST] = []
+                if isinstance(n, ast.Assign):
+                    tgts, v = list(n.targets), n.value
+                elif isinstance(n, (ast.AnnAssign, ast.NamedExpr)) and n.value is not None:
+                    tgts, v = [n.target], n.value
+                else:
+                    continue
+                if names_in_load(v) & dep:
+                    new = {x.id for t in tgts for x in ast.walk(t) if isinstance(x, ast.Name)} - dep
+                    if new:
+                        dep |= new
+                        changed = True
+    return dep
+
+
 def parameter_passes(ix: Any, f: FuncInfo) -> list[tuple[FuncInfo, ast.For]]:
-    """the loops over the parameters of an operation that test each python_name against the reserved names, in f or in the private
-    helpers f delegates to: (function, loop)"""
+    """the loops that examine the python_name of each parameter of an operation, in f or in the private helpers f delegates to:
+    (function, loop).  A pass is recognised by what it does with its items - it reads the `python_name` of (something taken from)
+    its loop variable: to test it against the reserved names, to look it up among the names seen so far, to rename - not by any one
+    of these tests being present."""
     out = []
     for g in region(ix, f):
-        loops = [n for n in ast.walk(g.node) if isinstance(n, ast.For) and any(_reserved_tests(g, s_) for s_ in n.body)]
+        loops = []
+        for n in ast.walk(g.node):
+            if not isinstance(n, ast.For):
+                continue
+            dep = _derived_from(n)
+            if any(isinstance(x, ast.Attribute) and x.attr == "python_name" and isinstance(x.value, ast.Name) and x.value.id in dep
+                   for s_ in n.body for x in ast.walk(s_)):
+                loops.append(n)
         # the outermost such loop of g is the pass
         for lp in loops:
             if not any(o is not lp and any(x is lp for x in ast.walk(o)) for o in loops):
@@ -1101,7 +1240,7 @@ def check_param_conflicts(rep: Report, ctx: Any, rid: str, cfgs: "dict[str, CFG]
     f = ep.methods.get("_check_parameters_for_conflicts")
     rep.require(f, "Endpoint._check_parameters_for_conflicts")
     passes = parameter_passes(ix, f)
-    rep.require(passes, "parameter loop (with the reserved-name test) in _check_parameters_for_conflicts")
+    rep.require(passes, "the loop of _check_parameters_for_conflicts (or of a helper of it) that examines the python_name of each parameter")
     g, loop = passes[0]
     reg = region(ix, f)
     renames = [(h, s) for h in reg for s in cfg_of(h, cfgs).stmts() if stmt_calls(s, "set_python_name")]
@@ -1300,10 +1439,29 @@ def _diagnosing_guard(f: FuncInfo, scope: list[ast.stmt], name_txt: str, avoid: 
                 if isinstance(c, ast.Compare) and len(c.ops) == 1 and isinstance(c.ops[0], (ast.In, ast.NotIn)) and \
                         name_txt in norm(_inline_locals(c.left, f.node)):
                     reach = cfg.reachable_from(st, avoid=lambda n: id(n) in avoid)
-                    if any(isinstance(n, ast.stmt) and (isinstance(n, ast.Raise) or returns_error(n, errs) or _records_error(n, errs))
-                           for n in reach):
+                    if any(isinstance(n, ast.stmt) and diagnoses(n, errs) for n in reach):
                         return True
     return False
+
+
+def _yields_error(st: ast.stmt, errs: set[str]) -> bool:
+    """the statement yields an error value: a generator hands it to whoever iterates it, as `return` hands it to the caller"""
+    from ..astutil import constructs_error
+
+    if isinstance(st, (ast.FunctionDef, ast.AsyncFunctionDef, ast.ClassDef)):
+        return False
+    for y in walk_own(st):
+        if isinstance(y, (ast.Yield, ast.YieldFrom)) and y.value is not None:
+            v = y.value
+            cands = [v] + (list(v.elts) if isinstance(v, ast.Tuple) else [])
+            if constructs_error(v) or any(isinstance(c, ast.Name) and c.id in errs for c in cands):
+                return True
+    return False
+
+
+def diagnoses(st: ast.stmt, errs: set[str]) -> bool:
+    """the statement makes a diagnostic: it raises, returns an error, yields one (generator), or records one in a list"""
+    return isinstance(st, ast.Raise) or returns_error(st, errs) or _yields_error(st, errs) or _records_error(st, errs)
 
 
 def _records_error(st: ast.stmt, errs: set[str]) -> bool:
